@@ -917,7 +917,11 @@ func (x *Unit) runDefers(s *State, fr *frame) *State {
 		savedFr := x.fr
 		x.fr = sub
 		x.inDefer++
-		if d.fnLit != nil {
+		if d.builtin == "close" {
+			x.chanClose(run, d.args[0], d.call)
+		} else if d.builtin != "" {
+			// reported as unsupported when the defer statement was executed
+		} else if d.fnLit != nil {
 			x.inlineLit(run, d.fnLit, x, d.args, d.call)
 		} else {
 			pc := &preparedCall{call: d.call, callee: nil, args: d.args, recv: d.recv, funVal: d.funVal}
